@@ -1,5 +1,9 @@
 //! C11 driver: real distance computations and closeness decisions, logged with SHA-256 digests of the
 //! address bytes computed here (sha2 crate), independently of libp2p's KBucketKey.
+//! Peer sets come plain and degenerate (the target itself among the peers, duplicated peers, counts 1 / size-1 / more
+//! than there are); every peer handed to calculate_get_closest_peers carries its own multiaddrs, which must come back
+//! with it. convert_distance_to_u256 is also fed CRAFTED distances (0, 1, 2^255, 2^256-1, leading zero bytes, powers
+//! of ten): real `Distance` values obtained from real address distances by XOR-combination (see `crafted`).
 #[path = "../nodeworld.rs"]
 #[allow(dead_code)]
 mod nodeworld;
@@ -45,15 +49,20 @@ fn address(kind: &str, rng: &mut StdRng) -> (NetworkAddress, Vec<u8>) {
             let x = xn(rng);
             (NetworkAddress::from_transaction_address(TransactionAddress::new(x)), x.0.to_vec())
         }
+        // the names of scratchpads / registers are derived HERE from the parts of the address (xor_name crate):
+        // hash of the owner key, hash of meta ++ owner key
         "scratchpad" => {
-            let sk = bls::SecretKey::random();
-            let a = ScratchpadAddress::new(sk.public_key());
-            (NetworkAddress::ScratchpadAddress(a), a.xorname().0.to_vec())
+            let pk = nodeworld::bls_key(rng.gen::<u32>() as u64).public_key();
+            let a = ScratchpadAddress::new(pk);
+            (NetworkAddress::ScratchpadAddress(a), XorName::from_content(&pk.to_bytes()).0.to_vec())
         }
         "register" => {
-            let sk = bls::SecretKey::random();
-            let a = RegisterAddress::new(xn(rng), sk.public_key());
-            (NetworkAddress::from_register_address(a), a.xorname().0.to_vec())
+            let pk = nodeworld::bls_key(rng.gen::<u32>() as u64).public_key();
+            let meta = xn(rng);
+            let a = RegisterAddress::new(meta, pk);
+            let mut b = meta.0.to_vec();
+            b.extend_from_slice(&pk.to_bytes());
+            (NetworkAddress::from_register_address(a), XorName::from_content(&b).0.to_vec())
         }
         _ => {
             let mut b = vec![0u8; rng.gen_range(1..64)];
@@ -72,12 +81,134 @@ fn xor(a: &[u8], b: &[u8]) -> Vec<u8> {
 fn ev_dist(t: &mut Trace, a: &(NetworkAddress, Vec<u8>), b: &(NetworkAddress, Vec<u8>), src: &str) {
     let ab = u256_bytes(convert_distance_to_u256(&a.0.distance(&b.0)));
     let ba = u256_bytes(convert_distance_to_u256(&b.0.distance(&a.0)));
-    // the same two addresses held as raw record keys
+    // the same two addresses held as raw record keys (to_record_key / from_record_key are defined for every kind,
+    // peers included), and one typed against one raw
     let ar = NetworkAddress::from_record_key(&a.0.to_record_key());
     let br = NetworkAddress::from_record_key(&b.0.to_record_key());
-    let raw_ok = matches!(a.0, NetworkAddress::PeerId(_)) || matches!(b.0, NetworkAddress::PeerId(_));
-    let ab_raw = if raw_ok { ab.clone() } else { u256_bytes(convert_distance_to_u256(&ar.distance(&br))) };
-    t.emit(json!({"ev":"Dist","a":sha(&a.1),"b":sha(&b.1),"ab":ab,"ba":ba,"abRaw":ab_raw,"same":a.0 == b.0 || a.1 == b.1,"src":src}));
+    let ab_raw = u256_bytes(convert_distance_to_u256(&ar.distance(&br)));
+    let ab_mixed = u256_bytes(convert_distance_to_u256(&a.0.distance(&br)));
+    t.emit(json!({"ev":"Dist","a":sha(&a.1),"b":sha(&b.1),"ab":ab,"ba":ba,"abRaw":ab_raw,"abMixed":ab_mixed,"same":a.0 == b.0 || a.1 == b.1,"src":src}));
+}
+
+fn bit(v: &[u8; 32], i: usize) -> bool {
+    v[i / 8] & (0x80 >> (i % 8)) != 0
+}
+fn xor32(a: &[u8; 32], b: &[u8; 32]) -> [u8; 32] {
+    let mut o = [0u8; 32];
+    for i in 0..32 { o[i] = a[i] ^ b[i]; }
+    o
+}
+
+/// convert_distance_to_u256 on crafted distances. No two addresses with digests differing in one chosen bit can be
+/// searched for, and `Distance` has no public constructor; but the XOR metric is linear: with 320 random addresses
+/// a_0..a_319 (all kinds) the digest differences v_i = h(a_0) xor h(a_i) span the whole 256-bit space, so any wanted
+/// value T is the XOR of a subset S of them (Gaussian elimination over GF(2) on digests computed HERE with sha2).
+/// The real distances d_i = a_0.distance(a_i), i in S, are then combined by libp2p's own `for_distance`
+/// (key xor distance) into the key-space point X = h(a_0) xor T, and the REAL `Distance` a_0.distance(X) -- whose
+/// value is T -- is handed to the real convert_distance_to_u256.
+fn crafted(t: &mut Trace, rng: &mut StdRng, rounds: usize) {
+    let kinds = ["peer", "chunk", "register", "scratchpad", "transaction", "recordkey"];
+    for round in 0..rounds {
+        let addrs: Vec<(NetworkAddress, Vec<u8>)> = (0..320).map(|i| address(kinds[i % 6], rng)).collect();
+        let h: Vec<[u8; 32]> = addrs.iter().map(|a| sha(&a.1).try_into().expect("32")).collect();
+        // linear basis indexed by leading bit: (vector, subset of 1..320 as bits)
+        let mut basis: Vec<Option<([u8; 32], Vec<bool>)>> = vec![None; 256];
+        for i in 1..addrs.len() {
+            let mut v = xor32(&h[0], &h[i]);
+            let mut combo = vec![false; addrs.len()];
+            combo[i] = true;
+            for b in 0..256 {
+                if !bit(&v, b) { continue; }
+                match &basis[b] {
+                    Some((bv, bc)) => {
+                        v = xor32(&v, bv);
+                        for k in 0..combo.len() { combo[k] ^= bc[k]; }
+                    }
+                    None => {
+                        basis[b] = Some((v, combo));
+                        break;
+                    }
+                }
+            }
+        }
+        let mut targets: Vec<(String, [u8; 32])> = vec![];
+        let u = |x: U256| -> [u8; 32] { x.to_be_bytes::<32>() };
+        targets.push(("zero".into(), [0u8; 32]));
+        targets.push(("one".into(), u(U256::from(1u8))));
+        targets.push(("two".into(), u(U256::from(2u8))));
+        targets.push(("max".into(), [255u8; 32]));
+        targets.push(("max-1".into(), u(U256::MAX - U256::from(1u8))));
+        for k in [7usize, 8, 9, 63, 64, 65, 127, 128, 129, 254, 255] {
+            targets.push((format!("2^{k}"), u(U256::from(1u8) << k)));
+            targets.push((format!("2^{k}-1"), u((U256::from(1u8) << k) - U256::from(1u8))));
+        }
+        // decimal lengths: 10^k and 10^k - 1 (the conversion goes through a decimal string)
+        for k in [1usize, 2, 9, 10, 19, 20, 38, 39, 76, 77] {
+            let p = U256::from(10u8).pow(U256::from(k));
+            targets.push((format!("10^{k}"), u(p)));
+            targets.push((format!("10^{k}-1"), u(p - U256::from(1u8))));
+        }
+        // n leading zero bytes followed by random bytes; a lone non-zero byte in each position
+        for n in [1usize, 2, 8, 15, 16, 17, 24, 30, 31] {
+            let mut v = [0u8; 32];
+            rng.fill(&mut v[n..]);
+            if v[n] == 0 { v[n] = 1; }
+            targets.push((format!("lead0x{n}"), v));
+        }
+        let pos = rng.gen_range(0..32);
+        let mut v = [0u8; 32];
+        v[pos] = rng.gen_range(1..=255);
+        targets.push((format!("byte@{pos}"), v));
+        let k0 = addrs[0].0.as_kbucket_key();
+        for (class, want) in targets {
+            // solve want = XOR of v_i, i in S
+            let mut r = want;
+            let mut combo = vec![false; addrs.len()];
+            let mut solvable = true;
+            for b in 0..256 {
+                if !bit(&r, b) { continue; }
+                match &basis[b] {
+                    Some((bv, bc)) => {
+                        r = xor32(&r, bv);
+                        for k in 0..combo.len() { combo[k] ^= bc[k]; }
+                    }
+                    None => { solvable = false; break; }
+                }
+            }
+            if !solvable { continue; } // rank < 256: astronomically unlikely with 319 random vectors; the round's count is logged
+            // walk from h(a_0) by the REAL distances of the chosen addresses
+            let mut x = k0.for_distance(addrs[0].0.distance(&addrs[0].0));
+            let mut used = 0;
+            for i in 1..addrs.len() {
+                if combo[i] {
+                    x = x.for_distance(addrs[0].0.distance(&addrs[i].0));
+                    used += 1;
+                }
+            }
+            let d = k0.distance(&x);
+            let got = u256_bytes(convert_distance_to_u256(&d));
+            t.emit(json!({"ev":"Conv","a":h[0].to_vec(),"b":xor32(&h[0], &want).to_vec(),"ab":got,"class":class,"combined":used,"round":round,"src":"crafted"}));
+        }
+    }
+}
+
+/// a distinct multiaddr per (entry, k): the entry index is in the address and in the port
+fn entry_addrs(i: usize, n: usize) -> Vec<Multiaddr> {
+    (0..n).map(|k| format!("/ip4/10.{}.{}.{}/udp/{}/quic-v1", (i / 250) % 250, i % 250, k + 1, 20000 + i).parse().expect("multiaddr")).collect()
+}
+/// entry index encoded in a multiaddr made by `entry_addrs` (+1), 0 if it is none of them
+fn entry_of(m: &Multiaddr) -> usize {
+    let s = m.to_string();
+    let parts: Vec<&str> = s.split('/').collect();
+    if parts.len() == 6 && parts[1] == "ip4" && parts[3] == "udp" && parts[5] == "quic-v1" {
+        if let (Ok(port), Some(ip)) = (parts[4].parse::<usize>(), Some(parts[2])) {
+            let o: Vec<usize> = ip.split('.').filter_map(|x| x.parse().ok()).collect();
+            if port >= 20000 && o.len() == 4 && o[0] == 10 && o[1] * 250 + o[2] == port - 20000 {
+                return port - 20000 + 1;
+            }
+        }
+    }
+    0
 }
 
 fn main() {
@@ -91,12 +222,23 @@ fn main() {
     let mut by_digest: Vec<(Vec<u8>, usize)> = pool.iter().enumerate().map(|(i, a)| (sha(&a.1), i)).collect();
     by_digest.sort();
     let cases = arg("--cases").map(|p| read_ndjson(&p)).unwrap_or_default();
-    for c in &cases {
+    for (cid, c) in cases.iter().enumerate() {
         for _ in 0..reps {
             let kind = c["kind"].as_str().unwrap_or("chunk");
             let size = c["size"].as_u64().unwrap_or(5) as usize;
             let near = c["near"].as_bool().unwrap_or(false);
-            let target = if near { let i = rng.gen_range(0..by_digest.len() - 1); pool[by_digest[i].1].clone() } else { address(kind, &mut rng) };
+            let variant = c["variant"].as_str().unwrap_or("plain");
+            // degenerate peer sets: the target itself is one of the peers ("self"), peers occur twice ("dup"), both
+            let mut peers: Vec<PeerId> = (0..size).map(|_| peer(&mut rng)).collect();
+            if (variant == "dup" || variant == "selfdup") && size >= 2 {
+                peers[size - 1] = peers[0];
+                if size >= 6 { let k = rng.gen_range(1..size - 1); peers[k] = peers[rng.gen_range(1..size - 1)]; }
+            }
+            let own = if (variant == "self" || variant == "selfdup") && size >= 1 {
+                let k = if variant == "selfdup" { 0 } else { rng.gen_range(0..size) };
+                Some((NetworkAddress::from_peer(peers[k]), peers[k].to_bytes()))
+            } else { None };
+            let target = if let Some(o) = own { o } else if near { let i = rng.gen_range(0..by_digest.len() - 1); pool[by_digest[i].1].clone() } else { address(kind, &mut rng) };
             // pairwise distances: same kind, mixed kinds, identical, near neighbours in digest order
             let other = address(kind, &mut rng);
             ev_dist(&mut t, &target, &other, "case");
@@ -105,18 +247,22 @@ fn main() {
                 let i = rng.gen_range(0..by_digest.len() - 1);
                 ev_dist(&mut t, &pool[by_digest[i].1], &pool[by_digest[i + 1].1], "near");
             }
-            let peers: Vec<PeerId> = (0..size).map(|_| peer(&mut rng)).collect();
             let digests: Vec<Vec<u8>> = peers.iter().map(|p| sha(&p.to_bytes())).collect();
             let tdig = sha(&target.1);
             let id_of = |p: &PeerId| peers.iter().position(|x| x == p).map(|i| i + 1).unwrap_or(0);
-            let n = match c["count"].as_u64().unwrap_or(5) { 99 => size + 1, x => x as usize };
-            // sort_peers_by_address
+            // 99: more than there are; 98: all but one
+            let n = match c["count"].as_u64().unwrap_or(5) { 99 => size + 1, 98 => size.saturating_sub(1), x => x as usize };
+            // sort_peers_by_address returns references INTO `peers`: the entry is identified by its position (exact also
+            // when a peer occurs twice)
             match sort_peers_by_address(&peers, &target.0, n) {
-                Ok(v) => t.emit(json!({"ev":"Sort","target":tdig,"peers":digests,"n":n,"res":"Ok","out":v.iter().map(|p| id_of(p)).collect::<Vec<_>>(),"src":"case"})),
+                Ok(v) => {
+                    let ids: Vec<usize> = v.iter().map(|p| peers.iter().position(|x| std::ptr::eq(x, *p)).map(|i| i + 1).unwrap_or(0)).collect();
+                    t.emit(json!({"ev":"Sort","target":tdig,"peers":digests,"n":n,"res":"Ok","out":ids,"cid":cid,"src":"case"}))
+                }
                 Err(e) => {
                     let name = format!("{e:?}");
                     let name = name.split(|c: char| !c.is_alphanumeric()).next().unwrap_or("Err").to_string();
-                    t.emit(json!({"ev":"Sort","target":tdig,"peers":digests,"n":n,"res":name,"out":Vec::<usize>::new(),"src":"case"}))
+                    t.emit(json!({"ev":"Sort","target":tdig,"peers":digests,"n":n,"res":name,"out":Vec::<usize>::new(),"cid":cid,"src":"case"}))
                 }
             }
             // a range: below all / equal to some distance / above all
@@ -133,17 +279,27 @@ fn main() {
             if let Some(r) = &range {
                 let ru = U256::from_be_slice(r);
                 let got = peers_in_range(&peers, &target.0, ru);
-                t.emit(json!({"ev":"InRange","target":tdig,"peers":digests,"range":r,"out":got.iter().map(|p| id_of(p)).collect::<Vec<_>>(),"src":"case"}));
+                t.emit(json!({"ev":"InRange","target":tdig,"peers":digests,"range":r,"out":got.iter().map(|p| id_of(p)).collect::<Vec<_>>(),"cid":cid,"src":"case"}));
             }
             // Node::calculate_get_closest_peers
-            let peer_addrs: Vec<(PeerId, Vec<Multiaddr>)> = peers.iter().map(|p| (*p, vec![])).collect();
+            // every entry carries its own multiaddrs (one or two; one entry in eight has none)
+            let naddr: Vec<usize> = (0..size).map(|_| [1usize, 1, 1, 1, 2, 2, 2, 0][rng.gen_range(0..8)]).collect();
+            let peer_addrs: Vec<(PeerId, Vec<Multiaddr>)> = peers.iter().enumerate().map(|(i, p)| (*p, entry_addrs(i, naddr[i]))).collect();
             let has_n = c["count"].as_u64().unwrap_or(0) != 0 || rng.gen_bool(0.5);
             let rb: Option<[u8; 32]> = range.as_ref().map(|r| r.clone().try_into().expect("32"));
             let got = VerifNode::calculate_get_closest_peers(peer_addrs, target.0.clone(), if has_n { Some(n) } else { None }, rb);
             let out: Vec<usize> = got.iter().map(|(a, _)| a.as_peer_id().map(|p| id_of(&p)).unwrap_or(0)).collect();
-            t.emit(json!({"ev":"Closest","target":tdig,"peers":digests,"n":n,"hasN":has_n,"hasRange":range.is_some(),"range":range.clone().unwrap_or(vec![0u8;32]),"out":out,"src":"case"}));
+            // what came back: the digest of each returned address (bytes taken from the peer id it converts to) and the
+            // entries its multiaddrs were made for
+            let odig: Vec<Vec<u8>> = got.iter().map(|(a, _)| a.as_peer_id().map(|p| sha(&p.to_bytes())).unwrap_or_else(|| vec![0u8; 32])).collect();
+            let oaddr: Vec<Vec<usize>> = got.iter().map(|(_, m)| m.iter().map(entry_of).collect()).collect();
+            t.emit(json!({"ev":"Closest","target":tdig,"peers":digests,"n":n,"hasN":has_n,"hasRange":range.is_some(),"range":range.clone().unwrap_or(vec![0u8;32]),"out":out,
+                "odig":odig,"oaddr":oaddr,"naddr":naddr,"cid":cid,"src":"case"}));
         }
     }
+    // crafted distances for the distance-to-integer conversion
+    let n_craft: usize = arg("--crafted").and_then(|s| s.parse().ok()).unwrap_or(1);
+    crafted(&mut t, &mut rng, n_craft);
     // random mixed-kind pairs
     let kinds = ["peer", "chunk", "register", "scratchpad", "transaction", "recordkey"];
     let n_rand: usize = arg("--random").and_then(|s| s.parse().ok()).unwrap_or(300);
